@@ -134,6 +134,13 @@ if __name__ == "__main__":
     code = 2
     try:
         code = main()
+    except SystemExit as exc:
+        code = exc.code if isinstance(exc.code, int) else 2
+    except BaseException:  # noqa: BLE001 - never end without a message: a silent exit 2 hides what happened
+        import traceback
+
+        print("HARNESS-ERROR " + traceback.format_exc()[-3000:], flush=True)
+        code = 2
     finally:
         try:
             from harness import tmpfiles
